@@ -16,7 +16,11 @@ VARIABLES l, out
 Skel == ndJsonDeserialize(TracePath)
 Key0 == Zeros(16)
 Sec0(dlc) == [ul |-> 0, dl |-> dlc, kEnc |-> Key0, kInt |-> Key0, encAlg |-> 0, intAlg |-> 2]
+\* transfer-only cases (dense sweeps of the aggregate bit rates, TEIDs and addresses): no NAS PDU is built
 Case(e) ==
+   IF "transferOnly" \in DOMAIN e /\ e.transferOnly
+   THEN [ev |-> "Extract", id |-> e.id, nas |-> <<>>, transfer |-> SetupRequestTransfer(e), exp |-> [ip |-> <<>>, teid |-> e.teid, upf |-> e.upf]]
+   ELSE
    LET ies == {e.ies[i] : i \in 1..Len(e.ies)}
        inner == NasEncode(NasPduAcceptIes(e, e.psi, e.pti, ies))
        dlt == NasEncode(NasDlTransport(inner, e.psi))
